@@ -38,7 +38,7 @@ def _can_quote_plain(code):
     if code < 0 or code > 0x10FFFF or 0xD800 <= code <= 0xDFFF:
         return False
     ch = chr(code)
-    return ch.isprintable() and ch not in "'\"\\"
+    return ch.isprintable() and ch != "\\"
 
 
 @st.composite
@@ -53,7 +53,7 @@ def spell_int(draw, value, kinds=None):
     if value in SYMBOLIC:
         options.append("symbolic")
     if kinds:
-        options = [o for o in options if o in kinds] or ["dec"]
+        options = [k for k in kinds if k in options] or ["dec"]  # kinds may repeat a spelling to give it more weight
     kind = draw(st.sampled_from(options))
     if kind == "dec":
         return str(value), kind
@@ -63,7 +63,8 @@ def spell_int(draw, value, kinds=None):
         prefix = draw(st.sampled_from(["0x", "0X"]))
         return ("-" if value < 0 else "") + prefix + digits, kind
     if kind == "quoted":
-        quote = draw(st.sampled_from("'\""))
+        # a quote character is written plainly between quotes of the other kind
+        quote = draw(st.sampled_from({34: "'", 39: '"'}.get(value, "'\"")))
         return quote + chr(value) + quote, kind
     if kind == "escaped":
         quote = draw(st.sampled_from("'\""))
@@ -172,6 +173,18 @@ def int_range_cases(draw, max_items=4, limits=None, spell_kinds=None):
     probes.update(draw(st.lists(st.integers(-500, 500), min_size=2, max_size=2)))
     return {"kind": "int", "description": description, "items": out_items, "probes": sorted(probes),
             "spellings": sorted(kinds)}
+
+
+# code points whose quoted spelling contains a character that also means something in the range grammar (quotes,
+# backslash, separators, comma, minus, hash, blank, digits, letters of symbolic names and of the hex prefix)
+META_CODE_POINTS = [34, 39, 92, 0x2026, 58, 44, 46, 45, 35, 32, 48, 120, 116, 50, 60, 97, 122]
+
+
+def meta_char_range_cases(max_items=4):
+    """Ranges over few code points, most limits quoted or escaped: exercises every pairing of quote styles, escaped
+    quotes and separators inside one description."""
+    return int_range_cases(max_items, st.sampled_from(META_CODE_POINTS),
+                           ("quoted", "quoted", "escaped", "escaped", "dec", "hex", "symbolic"))
 
 
 def dec_limits():
